@@ -14,6 +14,7 @@ def parseOOp (line : String) : Option OOp :=
   | ["opened", t] => t.toInt?.map .opened
   | ["closed", t] => t.toInt?.map .closed
   | ["should", t] => t.toInt?.map .should
+  | ["view", t] => t.toInt?.map .view
   | "cfg" :: rest =>
     let kvs := parseKVs rest
     match kvGet kvs "thr" with
@@ -32,7 +33,15 @@ def suiteOpener (kvs : List (String × String)) (lines0 : List (String × String
     let dur := kvInt kvs "dur" 10000000000
     let w := tdiv dur n
     let s0 : OState := if hyst then .hystrix (HOpener.new n dur (kvInt kvs "pct" 50) (kvInt kvs "vol" 20)) else .consec { threshold := kvInt kvs "thr" 10 }
-    let m := (orun s0 ops).map fun | none => "ok" | some b => fmtBool b
+    let rec outs (s : OState) : List OOp → List String
+      | [] => []
+      | op :: rest =>
+        let (s', o) := ostep s op
+        (match op, o with
+         | .view _, _ => oviewOut s'
+         | _, none => "ok"
+         | _, some b => fmtBool b) :: outs s' rest
+    let m := outs s0 ops
     -- spec column, op by op, from the reversed prefix
     let rec specs (h : List OOp) : List OOp → List String
       | [] => []
@@ -40,7 +49,7 @@ def suiteOpener (kvs : List (String × String)) (lines0 : List (String × String
         let h' := op :: h
         let s := match op with
           | .should t =>
-            if hyst then (if monotone h' then fmtBool (hystrixShould n w (kvInt kvs "pct" 50) (kvInt kvs "vol" 20) h t) else "-")
+            if hyst then (if latest h t then fmtBool (hystrixShould n w (kvInt kvs "pct" 50) (kvInt kvs "vol" 20) h t) else "-")
             else fmtBool (consecShould (kvInt kvs "thr" 10) h)
           | _ => "-"
         s :: specs h' rest
